@@ -363,7 +363,7 @@ func RunC07Overlap(r *sim.Run) {
 		return out
 	}
 	rounds := t.Range(3, 12)
-	overlapped := 0
+	overlapped, limitChanges := 0, 0
 	for round := 0; round < rounds && !r.Violated(); round++ {
 		r.Step = round
 		for _, in := range insts {
@@ -412,7 +412,27 @@ func RunC07Overlap(r *sim.Run) {
 				}
 			})
 		}
-		if k > 1 {
+		// one round in three the limit changes while the reports are in flight
+		// (the upstream controller's worker calls the handler with the new object)
+		Lold := L
+		if t.Draw(3) == 0 {
+			L = []int32{10, 50, 100, 1000, Lold / 2, Lold * 2}[t.Draw(6)]
+			if L < 1 {
+				L = 1
+			}
+			s.limit = L
+			newObj := clusterObj(up, []*schemaCfg{s})
+			h := rp.RL.(interface {
+				UpstreamConditionHandler(*proxyv1alpha1.UpstreamCluster) error
+			})
+			limitChanges++
+			w.Sc.Go(fmt.Sprintf("r%d-limit", round), func() {
+				if err := h.UpstreamConditionHandler(newObj); err != nil {
+					r.Logf("round %d: limit handler error: %v", round, err)
+				}
+			})
+		}
+		if k > 1 || L != Lold {
 			overlapped++
 		}
 		// drive only this round's threads to completion under a drawn schedule
@@ -443,15 +463,23 @@ func RunC07Overlap(r *sim.Run) {
 			rs.in.last = quota{q: rs.q, known: true}
 			parts = append(parts, fmt.Sprintf("%s: used=%d prev=%d -> %d", rs.in.id, rs.used, prev.q, rs.q))
 			r.Checked("quota_within_1_and_limit")
-			if rs.q < 1 || rs.q > L {
-				r.Violate("quota_out_of_range", rangeSig(rs.q, L), "limit %d: instance %s was answered %d", L, rs.in.id, rs.q)
+			// a report that overlapped the limit change may have been answered under either limit
+			hi := L
+			if Lold > hi {
+				hi = Lold
+			}
+			if rs.q < 1 || rs.q > hi {
+				r.Violate("quota_out_of_range", rangeSig(rs.q, hi)+"/overlap/"+storeKind, "store %s, limit %d (before this round %d): instance %s was answered %d", storeKind, L, Lold, rs.in.id, rs.q)
 				return
 			}
 		}
-		r.Logf("round %d (sum before %d/%d): %s", round, S, L, strings.Join(parts, "; "))
+		r.Logf("round %d (sum before %d, limit %d -> %d): %s", round, S, Lold, L, strings.Join(parts, "; "))
 		after, err := recordedQuotas(rp, up, ids(), s)
 		if err != nil {
 			continue
+		}
+		if L != Lold {
+			continue // the sum is judged against one limit: from the next round on
 		}
 		if S <= int64(L) {
 			r.Checked("sum_stays_within_limit_under_overlap")
@@ -469,6 +497,7 @@ func RunC07Overlap(r *sim.Run) {
 	}
 	r.SimSecs = w.Now().Seconds()
 	r.ProbeN("rounds_with_overlap", overlapped)
+	r.ProbeN("limit_changes_during_reports", limitChanges)
 	r.ProbeN("yields", w.Sc.Yields)
 	r.Nontrivial = overlapped > 0
 	r.Sample = map[string]interface{}{"limit": L, "store": storeKind, "instances": nInst, "rounds": rounds, "overlapping_rounds": overlapped}
